@@ -106,6 +106,11 @@ def _nonterminal_arm(cond, var):
     if any(c.endswith("::isTerminalNode") for c in cond["calls"]) and var in cond["refs"] and cond.get("op") == "truth":
         return 0 if neg else 1
     op = cond.get("op")
+    if op in ("==", "!=") and any(c.endswith("::getNodeLevel") for c in cond["calls"]) and var in cond["refs"]:
+        # the node's level equals a loop's level counter (which runs over 1..N): a terminal has level 0, so the agree edge is a non-terminal edge
+        import re
+        if re.search(r"getNodeLevel\(%s\)" % re.escape(var), re.sub(r"\s+", "", cond["text"])):
+            return (0 if op == "==" else 1)
     if op in (">", ">=", "<", "<="):
         l, r = cond["l"], cond["r"]
         flip = {">": "<", "<": ">", ">=": "<=", "<=": ">="}
